@@ -28,16 +28,17 @@ def gen_full(rng, size="small", force=None):
     N = n + 2 * nv
     F = {k: p(q) for k, q in dict(capacity=.6, windows=.5, precedence=.4, groups=.3, alternates=.25, mixing=.3, initial=.3,
                                   dur_groups=.3, multipliers=.4, targets=.3, minstops=.25, limits=.5, attrs=.3,
-                                  defaults=.15, custom=.3, sparse=.5, dag=.35, mixing_heavy=0).items()}
+                                  defaults=.15, custom=.3, sparse=.5, dag=.35, mixing_heavy=0, overload=0).items()}
     if force:
         F.update(force)
+    direct_p, succ_p = F.get("direct_p"), F.get("succ_p", 0.5)
     stops = []
     for i in range(n):
         s = {"id": "s%d" % i, "location": {"lon": 7.0 + 0.01 * i, "lat": 51.0 + 0.005 * (i % 4)}}
         if p(0.7):
             s["duration"] = rng.choice([0, 60, 120, 300])
         if F["capacity"] and p(0.8):
-            s["quantity"] = rng.choice([-2, -1, -1, 1, 1, 2]) if p(0.6) else {"a": rng.choice([-1, 1]), "b": rng.choice([-2, 0, 1])}
+            s["quantity"] = rng.choice([-2, -1, -1, -1, 1] if F["overload"] else [-2, -1, -1, 1, 1, 2]) if p(0.6) else {"a": rng.choice([-1, 1]), "b": rng.choice([-2, 0, 1])}
         if F["windows"] and p(0.5):
             a = T0 + 60 * rng.randint(0, 90)
             w = [rfc(a), rfc(a + 60 * rng.choice([10, 30, 90]))]
@@ -82,15 +83,15 @@ def gen_full(rng, size="small", force=None):
             if (ids[i], ids[j]) not in edges:
                 edges.append((ids[i], ids[j]))
         for a, b in edges:
-            direct = p(0.15)
-            if p(0.5):
+            direct = p(0.15 if direct_p is None else direct_p)
+            if not p(succ_p):
                 tgt = {"id": stops[b]["id"], "direct": True} if direct else stops[b]["id"]
                 cur = stops[a].get("precedes")
-                stops[a]["precedes"] = tgt if cur is None and p(0.6) else as_list(cur) + [tgt]
+                stops[a]["precedes"] = tgt if cur is None and p(0.6) and not direct else as_list(cur) + [tgt]
             else:
                 src = {"id": stops[a]["id"], "direct": True} if direct else stops[a]["id"]
                 cur = stops[b].get("succeeds")
-                stops[b]["succeeds"] = src if cur is None and p(0.6) else as_list(cur) + [src]
+                stops[b]["succeeds"] = src if cur is None and p(0.6) and not direct else as_list(cur) + [src]
     elif F["precedence"] and n >= 2:
         ids = list(range(n))
         rng.shuffle(ids)
@@ -98,8 +99,8 @@ def gen_full(rng, size="small", force=None):
         while k + 1 < len(ids) and p(0.6):
             a, b = stops[ids[k]], stops[ids[k + 1]]
             if "precedes" not in a and "precedes" not in b:
-                tgt = [{"id": b["id"], "direct": True}] if p(0.3) else b["id"]
-                if p(0.5):
+                tgt = [{"id": b["id"], "direct": True}] if p(0.3 if direct_p is None else direct_p) else b["id"]
+                if not p(succ_p):
                     a["precedes"] = tgt
                 else:
                     b["succeeds"] = [{"id": a["id"], "direct": True}] if isinstance(tgt, list) else a["id"]
@@ -123,7 +124,7 @@ def gen_full(rng, size="small", force=None):
                 if p(0.4):
                     ve["start_level"] = {"a": rng.randint(0, ve["capacity"]["a"])}
             else:
-                ve["capacity"] = rng.randint(0, 5)
+                ve["capacity"] = rng.randint(0, 2 if F["overload"] else 5)
                 if p(0.4):
                     ve["start_level"] = rng.randint(0, ve["capacity"])
             if any(isinstance(s.get("quantity"), dict) for s in stops) and any(isinstance(s.get("quantity"), int) for s in stops):
@@ -246,6 +247,48 @@ def gen_full(rng, size="small", force=None):
                 opts["constraints"]["disable"]["capacities"] = [res]
             opts["objectives"]["capacities"] = "name=%s;factor=%s;offset=%s" % (res, rng.choice(["1.0", "10.0", "0.5"]), rng.choice(["0.0", "5.0"]))
     return inp, opts, {k: bool(v) for k, v in F.items()} | {"matrix": use_matrix, "time_dependent": td}
+
+
+def gen_overload(rng):
+    """capacity as an objective on a plain input: one or two vehicles that are too small for what is picked up, drop-offs in
+    between, the capacity constraint off - every stop gets planned and routes end above the capacity"""
+    n = rng.randint(3, 7)
+    named = rng.random() < 0.4
+    res = "a" if named else "default"
+    stops = []
+    for i in range(n):
+        q = rng.choice([-3, -2, -2, -1, -1, 1, 1, 2])
+        if i == 0:
+            q = -rng.randint(1, 3)
+        if i == 1:
+            q = rng.randint(1, 2)
+        stops.append({"id": "s%d" % i, "location": {"lon": 7.0 + 0.01 * i, "lat": 51.0 + 0.005 * (i % 3)},
+                      "quantity": {res: q} if named else q, "duration": rng.choice([0, 60])})
+    vehicles = []
+    for v in range(rng.randint(1, 2)):
+        cap = rng.randint(0, 2)
+        ve = {"id": "v%d" % v, "start_location": {"lon": 7.5, "lat": 51.5}, "speed": 10, "capacity": {res: cap} if named else cap}
+        if rng.random() < 0.7:
+            ve["end_location"] = {"lon": 7.6, "lat": 51.6}
+        if rng.random() < 0.4:
+            ve["start_level"] = {res: rng.randint(0, cap)} if named else rng.randint(0, cap)
+        vehicles.append(ve)
+    opts = gen_options(random_const())
+    if rng.random() < 0.5:
+        opts["constraints"]["disable"]["capacity"] = True
+    else:
+        opts["constraints"]["disable"]["capacities"] = [res]
+    opts["objectives"]["capacities"] = "name=%s;factor=%s;offset=%s" % (res, rng.choice(["1.0", "10.0", "0.5"]), rng.choice(["0.0", "5.0"]))
+    return {"stops": stops, "vehicles": vehicles}, opts
+
+
+class random_const:
+    """gen_options with every coin on its first side: nothing disabled, every standard objective at its first choice"""
+    def random(self):
+        return 1.0
+
+    def choice(self, xs):
+        return xs[-1]
 
 
 def gen_options(rng):
